@@ -58,6 +58,16 @@ package libp2p
 //@   modifies i.id, i.pubKey
 //@   ensures [identity-is-derived-from-the-decoded-key] result == nil ==> i.id == @peerIDOfKey(i.pubKey)
 
+// The sender proposed to the container check is the signed author of the
+// pubsub message (its From field), not the neighbour that relayed it.
+//@ spec func pubsubAuthor(m ref) peer.ID
+//@ assume func github.com/libp2p/go-libp2p-pubsub.Message.GetFrom
+//@   ensures result == @pubsubAuthor(recv)
+//@ func channel.processPubsubMessage
+//@   property C18
+//@   opt noframe 1
+//@   assert call:channel.processContainerMessage : [the-proposed-sender-is-the-signed-author-of-the-pubsub-message] arg0 == @pubsubAuthor(pubsubMessage)
+
 //@ func channel.processContainerMessage
 //@   property C18
 //@   opt noframe 1
